@@ -347,6 +347,29 @@ def all_guards(node, fn):
     return res
 
 
+def alias_mutations(fn):
+    """[(alias, attr, node)]: a local bound to exactly `self.<attr>` is the same object; item stores, mutating method calls and in-place operators on it change the attribute"""
+    import ast as _ast
+    MUT = {"append", "extend", "update", "pop", "clear", "setdefault", "add", "remove", "insert", "popitem", "discard", "sort", "reverse"}
+    aliases, out = {}, []
+    for st in _ast.walk(fn):
+        if isinstance(st, _ast.Assign) and len(st.targets) == 1 and isinstance(st.targets[0], _ast.Name) and isinstance(st.value, _ast.Attribute) \
+                and isinstance(st.value.value, _ast.Name) and st.value.value.id == "self":
+            aliases[st.targets[0].id] = st.value.attr
+    if not aliases:
+        return out
+    for st in _ast.walk(fn):
+        tg = st.targets if isinstance(st, (_ast.Assign, _ast.Delete)) else [st.target] if isinstance(st, _ast.AugAssign) else []
+        for t in tg:
+            if isinstance(t, _ast.Subscript) and isinstance(t.value, _ast.Name) and t.value.id in aliases:
+                out.append((t.value.id, aliases[t.value.id], st))
+            if isinstance(st, _ast.AugAssign) and isinstance(t, _ast.Name) and t.id in aliases:
+                out.append((t.id, aliases[t.id], st))
+        if isinstance(st, _ast.Call) and isinstance(st.func, _ast.Attribute) and st.func.attr in MUT and isinstance(st.func.value, _ast.Name) and st.func.value.id in aliases:
+            out.append((st.func.value.id, aliases[st.func.value.id], st))
+    return out
+
+
 def clone(e):
     """a private copy of an expression / statement WITHOUT the model's parent links (copy.deepcopy follows them and copies the whole module)"""
     import ast as _ast
